@@ -93,7 +93,7 @@ def main():
         allres = {}
     for sid, r in summary.items():
         if r:
-            allres.setdefault(sid, {})[a.tier] = r
+            allres.setdefault(sid, {}).setdefault(a.tier, {}).update(r)
     json.dump(allres, open(rp, "w"), indent=1)
     out = os.path.join(VERIF, "work", "seeded-results-" + a.tier + ".json")
     os.makedirs(os.path.dirname(out), exist_ok=True)
